@@ -381,7 +381,7 @@ st_e2e = st.fixed_dictionaries(
         "serial": st.binary(min_size=6, max_size=6),
         "tag": st.binary(min_size=2, max_size=2),
         "sserial": st.binary(min_size=6, max_size=6),
-        "sseq": st.integers(0, 2**48 - 3),
+        "sseq": st.one_of(st.integers(0, 2**48 - 6), st.sampled_from([0, 2**48 - 6])),
         "frames": st.lists(st_frame, min_size=1, max_size=3),
         "bad": st.one_of(st.none(), st.integers(0, 50 * 8 - 1)),
     }
@@ -967,8 +967,8 @@ def run(ctx) -> None:
     for pw in PASSWORDS:  # warm the reference caches before forking
         ref_user(pw)
         ref_device(pw)
-    shards = 16 if ctx.quick else 64
-    per = (ctx.n(60, 600), ctx.n(12, 80), ctx.n(12, 80), ctx.n(30, 200))
+    shards = 16 if ctx.quick else 48
+    per = (ctx.n(60, 400), ctx.n(12, 60), ctx.n(12, 60), ctx.n(30, 150))
     # Hypothesis calls gc.collect() per run; in a forked worker that touches (copies) every page of
     # the inherited heap. Freezing the parent's objects keeps the workers' collections cheap.
     gc.collect()
